@@ -27,6 +27,12 @@ def stepCap (toks : List String) : Option String :=
       else
         let c := capAfterStorm k events
         some s!"max={c} replied={k + 2}/{k + 2} probe=ok mix=ok mixreplied={k + 2}/{k + 2}"
+  | ["capudp", ks, ns] =>
+    -- transient failures of the listener's pending read neither take nor lose a unit (the read-error path of serveUDP is
+    -- part of the certified CFG: `gen_cert_ok`): the full capacity is there afterwards, and the loop ends with its socket
+    match ks.toNat?, ns.toNat? with
+    | some k, some n => if k = 0 ∨ n > 64 then some "bad-op" else some s!"max={k} replied={k}/{k} returned=1"
+    | _, _ => some "bad-op"
   | _ => none
 
 end NV
